@@ -159,4 +159,42 @@ mod verif_i64 {
         assert!(NumberBase::sub(&a, &b) == a - b);
         assert!(<I64 as NumberBase>::zero() == Num(0) && <I64 as NumberBase>::one() == Num(1) && <I64 as NumberBase>::nan() == NaN);
     }
+
+    // ---- the algebraic laws assumed by the Verus bundle contracts/mtbdd.rs.tpl (num_laws) ----
+    #[kani::proof]
+    fn laws_for_shortcuts() {
+        use oxidd_core::function::NumberBase;
+        use std::cmp::Ordering::*;
+        let (x, y) = (any_i64v(), any_i64v());
+        let (zero, one, nan) = (<I64 as NumberBase>::zero(), <I64 as NumberBase>::one(), <I64 as NumberBase>::nan());
+        assert!(zero != one && zero != nan && one != nan);
+        assert!(x.is_zero() == (x == zero) && x.is_one() == (x == one) && NumberBase::is_nan(&x) == (x == nan));
+        assert!(NumberBase::add(&zero, &x) == x && NumberBase::add(&x, &zero) == x);
+        assert!(NumberBase::sub(&x, &zero) == x);
+        assert!(NumberBase::add(&nan, &x) == nan && NumberBase::add(&x, &nan) == nan);
+        assert!(NumberBase::sub(&nan, &x) == nan && NumberBase::sub(&x, &nan) == nan);
+        assert!(NumberBase::add(&x, &y) == NumberBase::add(&y, &x));
+        // order laws
+        assert!(x.partial_cmp(&x) == Some(Equal));
+        if x != nan { assert!(nan.partial_cmp(&x).is_none() && x.partial_cmp(&nan).is_none()); }
+        if x.partial_cmp(&y) == Some(Equal) { assert!(x == y); }
+        assert!((x.partial_cmp(&y) == Some(Less)) == (y.partial_cmp(&x) == Some(Greater)));
+        assert!(x.partial_cmp(&y).is_none() == y.partial_cmp(&x).is_none());
+    }
+    #[kani::proof]
+    fn laws_mul_div() {
+        use oxidd_core::function::NumberBase;
+        let x = any_i64v();
+        let (one, nan) = (<I64 as NumberBase>::one(), <I64 as NumberBase>::nan());
+        assert!(NumberBase::mul(&one, &x) == x && NumberBase::mul(&x, &one) == x);
+        assert!(NumberBase::div(&x, &one) == x);
+        assert!(NumberBase::mul(&nan, &x) == nan && NumberBase::mul(&x, &nan) == nan);
+        assert!(NumberBase::div(&nan, &x) == nan && NumberBase::div(&x, &nan) == nan);
+    }
+    #[kani::proof]
+    fn law_mul_commutative() {
+        use oxidd_core::function::NumberBase;
+        let (x, y) = (any_i64v(), any_i64v());
+        assert!(NumberBase::mul(&x, &y) == NumberBase::mul(&y, &x));
+    }
 }
